@@ -21,11 +21,11 @@ SKIP = {
 _NAMES: dict = {}
 
 
-def _attr_names(cls):
-    if cls not in _NAMES:
+def _attr_names(cls, inline_comments=False):
+    if (cls, inline_comments) not in _NAMES:
         out = []
         for a in dir(cls):
-            if a.startswith('_') or a in SKIP or 'comment' in a or 'spacing' in a:
+            if a.startswith('_') or a in SKIP or ('comment' in a and not (inline_comments and a == 'inline_comment')) or 'spacing' in a:
                 continue        # attribution and spacing are not functions of the text alone (C14 / C17 judge them)
             d = None
             for k in cls.__mro__:
@@ -37,8 +37,8 @@ def _attr_names(cls):
             if callable(d) and not isinstance(d, property) and not hasattr(d, '__set__'):
                 continue        # plain methods
             out.append(a)
-        _NAMES[cls] = sorted(out)
-    return _NAMES[cls]
+        _NAMES[(cls, inline_comments)] = sorted(out)
+    return _NAMES[(cls, inline_comments)]
 
 
 def norm(v, depth=0):
@@ -70,13 +70,15 @@ def norm(v, depth=0):
     return ('?', type(v).__name__)
 
 
-def value_state(root):
-    """[(path, class, attribute, normalised value)] for every tree model below root (repeated-list nodes excluded)."""
+def value_state(root, inline_comments=False):
+    """[(path, class, attribute, normalised value)] for every tree model below root (repeated-list nodes excluded).
+    inline_comments=True also reads `inline_comment` (exact text; only sound where no edit has put a comment in front of blanks
+    that were already in the input - a freshly constructed model)."""
     out = []
     for path, m in walker.walk(root):
         if not isinstance(m, mbase.RawTreeModel) or isinstance(m, Repeated):
             continue
-        for a in _attr_names(type(m)):
+        for a in _attr_names(type(m), inline_comments):
             try:
                 v = norm(getattr(m, a))
             except (decimal.DecimalException, ZeroDivisionError):
